@@ -105,6 +105,8 @@ func genConcOnce(r *rng, idx int, st stats) caseOut {
 	return caseOut{Term: term, Text: text, Hash: fmt.Sprintf("%s #%d", text, idx), Trivial: false, Category: "conconce"}
 }
 
+var classifyMu sync.Mutex
+
 // stream concshare (C12): goroutines share the target, the converter Funcs
 // and the SAME option values; each outcome must be one a sequential run of
 // the same call can produce.  Variants: (0) identical calls, some goroutines
@@ -148,7 +150,9 @@ func genConcShare(r *rng, idx int, st stats) caseOut {
 			}
 			return "ok:" + strings.Join(outs, ",")
 		}
+		classifyMu.Lock() // the classifier caches function types: not goroutine-safe
 		cl := rt.classify(e, false)
+		classifyMu.Unlock()
 		if strings.HasPrefix(cl, "(ObsUnsat") {
 			return "unsat"
 		}
@@ -230,6 +234,23 @@ func genConcShare(r *rng, idx int, st stats) caseOut {
 			return append([]am.Arg{nullLog}, ownArg(g)...)
 		}
 	}
+	if variant == 0 && r.chance(50) {
+		// the FIRST converter option is a ConverterFunc list with a nil entry (skipped by the
+		// library) built on a slice with spare capacity; every goroutine adds its own converter
+		// option after it
+		for i, o := range sharedOpts {
+			if o.Kind == "convfunc" || o.Kind == "conv" {
+				if o.Kind == "convfunc" {
+					cp := append([]Opt(nil), sharedOpts...)
+					fns := make([]int, 0, len(o.Fns)+4)
+					fns = append(append(fns, -1), o.Fns...)
+					cp[i].Fns = fns
+					sharedOpts = cp
+				}
+				break
+			}
+		}
+	}
 	shared := append([]am.Arg{nullLog}, rt.goOpts(sharedOpts)...)
 	k := 2 + r.intn(7)
 	// sequential outcomes, per goroutine's own arguments
@@ -265,7 +286,8 @@ func genConcShare(r *rng, idx int, st stats) caseOut {
 				case variant == 0:
 					// every goroutine also passes its own extra option: shared defaults must not leak it
 					extra := am.Named("zz", fmt.Sprint("goroutine ", g)) // a string: no function of the universe takes one
-					got[g] = append(got[g], sig(target.Call(append(shared[:len(shared):len(shared)], extra)...)))
+					mine := am.MustFunc(am.NewFunc(func(s string) string { return s + fmt.Sprint(g) })) // an own, irrelevant converter
+					got[g] = append(got[g], sig(target.Call(append(shared[:len(shared):len(shared)], extra, am.ConverterFunc(mine))...)))
 				default:
 					got[g] = append(got[g], sig(target.Call(argsFor(g)...)))
 				}
